@@ -159,6 +159,8 @@ def run(ctx):
     for c in corpus:
         c["mode"] = "crash"
         crash_opts(ctx, c, full=True)          # every inner cut and every second-level op cut on the corpus
+        if c.get("big"):                       # a block with more transactions than any batching constant (1001): unit boundaries only
+            c["partial"], c["recrash"], c["probe"] = "none", "none", "none"
     cases = corpus + gen_cases(ctx)
     outs = cd.run_engine(ctx, eng, cases, "c06")
     fails = []
